@@ -75,7 +75,11 @@ ds = open(dp).read()
 marker = "### 9.6 Seeded changes: which checks catch which"
 if marker in ds:
     ds = ds[:ds.index(marker)]
-ds = ds.rstrip("\n") + "\n\n" + marker + "\n\n" + intro + text + "\n"
+extra = ("\nProbes of my own for spec parts added after the sub-agent rounds (not kept under seeded/): the two `readTar` defects themselves "
+         "(checkouts before 4d3c0ba / 54222a6: C13 and C02 exit 1 with the stale-directory, write-through and cache-stack signatures, see 9.3) and a "
+         "`SyncParsePackage` that stops waiting for the package's parser after 2 ms and parses the package again: C04 exits 1 with "
+         "`C04 package-parsed-more-than-once` (63 traces rejected by the parse side of `TraceSched.tla`).\n")
+ds = ds.rstrip("\n") + "\n\n" + marker + "\n\n" + intro + text + "\n" + extra
 open(dp, "w").write(ds)
 print(text)
 print("\n%d mutations, %d caught now, %d caught at first run" % (len(rows), caught, sum(1 for r in rows if r[3] == "caught")))
